@@ -1,21 +1,46 @@
-import json, importlib, sys, os
-sys.path.insert(0,'/verif'); sys.path.insert(0,'/repo')
-props=[json.loads(l) for l in open('/verif/properties.jsonl')]
-checks=[]; na=[]
-TEXT=json.load(open('/verif/manifest_texts.json'))
+"""Regenerate MANIFEST.json from the check specs in props/cNN.py (+ manifest_texts.json overrides)."""
+import importlib
+import json
+import os
+import sys
+sys.path.insert(0, '/verif')
+sys.path.insert(0, '/repo')
+props = [json.loads(l) for l in open('/verif/properties.jsonl')]
+TEXT = json.load(open('/verif/manifest_texts.json'))
+checks, na = [], []
 for p in props:
-    pid=p['id']
-    if os.path.exists(f'/verif/props/{pid.lower()}.py') and pid in TEXT:
-        t=TEXT[pid]
-        checks.append(dict(property_id=pid, quick_cmd=f'./check {pid} --tier quick', thorough_cmd=f'./check {pid} --tier thorough',
-            evidence_file=f'evidence/{pid}.json', replay_cmd_template='./check --replay {path}', engine='dst',
-            level_claimed=dict(category=t['level'], text=t['text'], design_ref=t['ref']), level_note=t['note'], technique=t['technique']))
+    pid = p['id']
+    if os.path.exists(f'/verif/props/{pid.lower()}.py'):
+        spec = importlib.import_module('props.' + pid.lower()).CHECK
+        t = TEXT.get(pid, {})
+        text = t.get('text') or ('Seeded search over deterministic simulated runs with fault injection; '
+                                 + spec['rule'][:900])
+        checks.append(dict(
+            property_id=pid, quick_cmd=f'./check {pid} --tier quick',
+            thorough_cmd=f'./check {pid} --tier thorough', evidence_file=f'evidence/{pid}.json',
+            replay_cmd_template='./check --replay {path}', engine='dst',
+            level_claimed=dict(category=spec['level'], text=text,
+                               design_ref=t.get('ref', f'DESIGN.md section 7/{pid}')),
+            level_note=t.get('note') or '; '.join(spec['assumptions']),
+            technique=t.get('technique') or spec.get('technique') or
+            'deterministic simulation with fault injection (seeded schedule/fault search, reference-model oracle)'))
     else:
-        na.append(dict(property_id=pid, reason=TEXT.get('_na',{}).get(pid,'check not built yet in this phase (planned in DESIGN.md section 7); not claimed until it exists')))
-m=dict(version=1, setup_cmd='./setup.sh',
-  hooks=dict(guard='ELECTRUMX_VERIF', enable='no hook is needed: every seam is installed from the harness by rebinding module-level names (DESIGN.md 3.4); the guard name is reserved', baseline_off_cmd='cd /repo && /venv/bin/python -m pytest -ra -q -p no:cacheprovider --timeout=900 --continue-on-collection-errors', source_commits=[], add_only=True),
-  engines=[dict(name='dst', path='sim/', serves_properties=[c['property_id'] for c in checks], kind_free_text='deterministic simulation with fault injection: virtual-time asyncio loop, baton-passed worker threads, simulated storage/network/daemon, seeded search with minimised replay files')],
-  checks=checks, not_applicable=na,
-  notes='Exit codes: 0 held / 1 VIOLATION line / 2 HARNESS-ERROR (never a verdict). fix: commits in /repo are listed in known_findings.json.')
-json.dump(m, open('/verif/MANIFEST.json','w'), indent=1)
-print(len(checks),'checks',len(na),'na')
+        na.append(dict(property_id=pid, reason=TEXT.get('_na', {}).get(
+            pid, 'check not built yet in this phase (planned in DESIGN.md section 7); not claimed until it exists')))
+m = dict(
+    version=1, setup_cmd='./setup.sh',
+    hooks=dict(guard='ELECTRUMX_VERIF',
+               enable='no hook is needed: every seam is installed from the harness by rebinding module-level '
+                      'names (DESIGN.md 3.4); the guard name is reserved',
+               baseline_off_cmd='cd /repo && /venv/bin/python -m pytest -ra -q -p no:cacheprovider '
+                                '--timeout=900 --continue-on-collection-errors',
+               source_commits=[], add_only=True),
+    engines=[dict(name='dst', path='sim/', serves_properties=[c['property_id'] for c in checks],
+                  kind_free_text='deterministic simulation with fault injection: virtual-time asyncio loop, '
+                                 'baton-passed worker threads, simulated storage/network/daemon, seeded search '
+                                 'with minimised replay files')],
+    checks=checks, not_applicable=na,
+    notes='Exit codes: 0 held / 1 VIOLATION line / 2 HARNESS-ERROR (never a verdict). fix: commits in /repo '
+          'and open findings are listed in known_findings.json.')
+json.dump(m, open('/verif/MANIFEST.json', 'w'), indent=1)
+print(len(checks), 'checks', len(na), 'na')
